@@ -296,6 +296,8 @@ pub struct MA {
     // causal features
     pub ever_upd_while_disabled: bool,
     pub upd_while_disabled: bool,
+    /// process_events calls seen when the source was removed (the loop must never call it again)
+    pub pe_at_removal: Option<u32>,
     pub removed_by: u8, // 0 not removed, 1 external, 2 self-callback, 3 other-callback, 4 post-action/implicit
 }
 
@@ -469,6 +471,7 @@ impl Ctx {
             stale_in_batch: false,
             ever_upd_while_disabled: false,
             upd_while_disabled: false,
+            pe_at_removal: None,
             removed_by: 0,
         };
         let mut rt = Rt {
@@ -1281,6 +1284,7 @@ impl Ctx {
         a.enabled = false;
         a.armed = false;
         a.removed_by = by;
+        a.pe_at_removal = Some(pe);
         if self_in_pe {
             a.lat_pe = Some(pe);
         } else if self.in_dispatch {
@@ -2082,6 +2086,14 @@ impl Ctx {
                 if matches!(a.spec, KindSpec::Exec | KindSpec::ExecIo) && !a.alive && !self.rt[i].destroyed_checked && self.rt[i].track.src_dropped.get() == 1 {
                     self.rt[i].destroyed_checked = true;
                     self.clause("executor-destroyed");
+                    // every future it still held is gone: the gate handles the harness keeps are
+                    // the only references left
+                    let leaked: Vec<u8> = self.rt[i].gates.iter().filter(|g| Rc::strong_count(&g.1) > 1).map(|g| g.0).collect();
+                    if !leaked.is_empty() {
+                        let polled: Vec<u8> = a.tasks.iter().filter(|t| t.3).map(|t| t.0).collect();
+                        self.violate(&["C10", "C06"], "future-leaked-at-executor-drop", &[("drops", "0".into()), ("wake_overlaps_drop", "false".into())],
+                            format!("executor {i} was removed and dropped but the futures of tasks {leaked:?} are still alive (tasks polled and pending at that time: {polled:?})"));
+                    }
                     if self.rt[i].sched.as_ref().unwrap().schedule(async { 0u8 }).is_ok() {
                         self.violate(&["C10"], "schedule-after-destroy", &[], format!("schedule() succeeded after executor {i} was removed and dropped"));
                     }
@@ -2120,6 +2132,22 @@ impl Ctx {
                 } else if sd != 0 || cd != 0 {
                     self.violate(&["C06", "C01"], "dropped-while-inserted", &[("kind", kind.into())],
                         format!("actor {i} ({kind}) is inserted but its source/callback was dropped ({sd}/{cd})"));
+                }
+            }
+        }
+        // the loop never hands an event to a source it has removed (for the author of an event
+        // source, process_events *is* the callback); a disabled source may still be handed stale
+        // events of the batch, a removed one never
+        for i in 0..self.m.len() {
+            let a = &self.m[i];
+            if let (false, Some(at)) = (a.alive, a.pe_at_removal) {
+                let now = self.rt[i].track.pe_seq.get();
+                if now > at {
+                    let kind = a.spec.name();
+                    let rb = a.removed_by.to_string();
+                    self.m[i].pe_at_removal = Some(now);
+                    self.violate(&["C06", "C01"], "process-events-after-removal", &[("kind", kind.into()), ("removed_by", rb)],
+                        format!("the loop called process_events of actor {i} ({kind}) {} more time(s) after it had been removed", now - at));
                 }
             }
         }
@@ -2456,6 +2484,7 @@ pub fn run_history(cfg: &Rc<Cfg>, verbose: bool) -> (Outcome, Option<Vec<String>
     if end_order == 1 {
         ctx.decoded.push("end: sources and handles dropped before the loop".into());
     }
+    let epfd = ctx.epfd;
     let Ctx {
         h, m, mut rt, mut violations, dup_fault_seen, decoded, obs, transitions, callbacks, deviated, clauses, verbose, depth_used, poisoned, ..
     } = ctx;
@@ -2511,6 +2540,35 @@ pub fn run_history(cfg: &Rc<Cfg>, verbose: bool) -> (Outcome, Option<Vec<String>
                 v.props.push("C15".to_string());
             }
         }
+    }
+    // Everything this execution created has been dropped. If the loop's epoll fd is still open the
+    // loop, or something it owned, was leaked (a reference cycle through something the subject
+    // failed to release). Nothing reachable refers to those descriptors any more; they are
+    // closed by hand so that thousands of such executions end in verdicts rather than in EMFILE.
+    let mut leaked = Vec::new();
+    for fd in epfd..epfd + 96 {
+        if unsafe { libc::fcntl(fd, libc::F_GETFD) } >= 0 {
+            leaked.push(fd);
+            unsafe { libc::close(fd) };
+        }
+    }
+    if !leaked.is_empty() && cfg.check_release && !poisoned {
+        let mut props = vec!["C06".to_string()];
+        if m.iter().any(|a| matches!(a.spec, KindSpec::Exec | KindSpec::ExecIo)) {
+            props.push("C10".to_string());
+        }
+        let mut features = BTreeMap::new();
+        features.insert("loop_itself".to_string(), leaked.contains(&epfd).to_string());
+        violations.push(Violation {
+            props,
+            clause: "descriptors-leaked-at-drop".into(),
+            features,
+            message: format!(
+                "after dropping the loop, every handle and everything the harness held, descriptors {leaked:?} created by this execution are still open (loop epoll fd is {epfd}): something the loop owned is kept alive by a reference cycle"
+            ),
+            tape: vec![],
+            decoded: vec![],
+        });
     }
     if let Some(tag) = cfg.tag_all {
         for v in violations.iter_mut() {
